@@ -798,6 +798,26 @@ func ruleContentByExtension(c *eng.Ctx) {
 		switch x := f.Cond.(type) {
 		case *ssa.Call:
 			n := eng.CalleeName(x)
+			// a small method of the module that is the string test under another name (uri.hasSuffix(".css"))
+			if h := eng.StaticCallee(x); h != nil && eng.InModule(h) && h.Blocks != nil {
+				rets := eng.Returns(h)
+				all := len(rets) > 0
+				for _, r := range rets {
+					inner, ok := r.Results[0].(*ssa.Call)
+					if !ok {
+						all = false
+						continue
+					}
+					switch eng.CalleeName(inner) {
+					case "strings.HasSuffix", "strings.EqualFold", "strings.Contains":
+					default:
+						all = false
+					}
+				}
+				if all {
+					return true
+				}
+			}
 			if n == "strings.HasSuffix" || n == "strings.EqualFold" || n == "strings.Contains" {
 				for _, a := range x.Call.Args {
 					if _, ok := eng.ConstString(a); ok {
@@ -822,6 +842,10 @@ func ruleContentByExtension(c *eng.Ctx) {
 		return false
 	}
 	n := 0
+	if fn.Signature.Results().Len() != 1 || fn.Signature.Params().Len() != 1 {
+		c.Ok(R, "epubdoc.isContentFile#true", fn.Pos(), "not evaluated: the name test is no longer a predicate of its own (one name in, one answer out)")
+		return
+	}
 	for _, e := range eng.Exits(fn) {
 		if len(e.Results) != 1 {
 			continue
